@@ -130,6 +130,12 @@ def linalg_call(L, e, d, name, args):
     rvi = vec_info(rt)
     n = max([v[1] for v in vi if v] or [0])
     if n == 0:
+        # scalar overloads of the same templates
+        if name in ('min', 'max') and len(args) == 2 and all(t.kind == 'b' for t in ats):
+            ct = L.cty(rt)
+            hn = 'la_%s_%s' % (name, mangle(ct))
+            h = L.helper(hn, 'static inline %s %s(%s a, %s b) { return %s; }' % (ct, hn, ct, ct, '(a < b ? a : b)' if name == 'min' else '(a < b ? b : a)'))
+            return '%s(%s, %s)' % (h, L.expr(args[0]), L.expr(args[1]))
         return None
     for t in ats:
         if t.kind == 'rec' and not vec_info(t):
